@@ -91,6 +91,60 @@ def rotmat(rs):
     return np.eye(3) + np.sin(th) * K + (1 - np.cos(th)) * (K @ K)
 
 
+def line_direction(rs):
+    """a lattice direction: coordinate axis, face/space diagonal or a small integer vector"""
+    k = rs.randint(4)
+    if k == 0:
+        return np.eye(3)[rs.randint(3)] * rs.choice([-1.0, 1.0])
+    if k == 1:
+        d = rs.choice([-1.0, 0.0, 1.0], size=3)
+        while np.count_nonzero(d) < 2 or d[0] ** 2 + d[1] ** 2 == d[2] ** 2:
+            d = rs.choice([-1.0, 0.0, 1.0], size=3)
+        return d
+    d = rs.randint(-3, 4, size=3).astype(float)
+    while not d.any() or d[0] ** 2 + d[1] ** 2 == d[2] ** 2:     # (the fallback's 0.5 test would be a tie)
+        d = rs.randint(-3, 4, size=3).astype(float)
+    return d
+
+
+def rod_positions(rs, n):
+    """all atoms on one line, on a dyadic grid (so that dyadic translations and axis permutations are exact):
+    every anchor is exactly collinear with its bonded neighbours"""
+    step = 2.0 ** rs.randint(-4, 0)
+    base = rs.randint(-40, 41, size=3) / 8.0
+    t = rs.permutation(np.arange(-(n // 2), n - n // 2)) if rs.randint(2) else np.arange(n)
+    return base[None, :] + (t[:, None] * step) * line_direction(rs)[None, :]
+
+
+def collinearize(rs, pos, bonds):
+    """moves the two lowest-index bonded neighbours of one or two anchors onto a line through the anchor (the
+    three points `_calculate_refsystems_general` hands to calcule_base); the rest stays generic"""
+    pos = np.array(pos, dtype=float)
+    n = len(pos)
+    nb = [[] for _ in range(n)]
+    for a, b in bonds:
+        nb[a].append(b)
+        nb[b].append(a)
+    anchors = [i for i in range(n) if len(set(nb[i])) >= 2]
+    for a in rs.permutation(anchors)[:int(rs.randint(1, 3))]:
+        n1, n2 = sorted(set(nb[a]))[:2]
+        d = line_direction(rs) * 2.0 ** rs.randint(-4, -1)
+        s1, s2 = rs.choice([-3, -2, -1, 1, 2, 3], size=2, replace=False)
+        pos[n1] = pos[a] + s1 * d
+        pos[n2] = pos[a] + s2 * d
+    return pos
+
+
+def axis_rotation(rs):
+    """a signed permutation matrix of determinant +1 (exact in binary64)"""
+    while True:
+        m = np.zeros((3, 3))
+        for i, j in enumerate(rs.permutation(3)):
+            m[i, j] = rs.choice([-1.0, 1.0])
+        if np.linalg.det(m) > 0:
+            return m
+
+
 def split_residues(rs, n, nres, tag):
     """contiguous blocks: [(atomname, resname, resid)]"""
     nres = max(1, min(nres, n))
@@ -120,11 +174,16 @@ def gen_static(rs, uid, k_only=False):
     rname, tname = "R%dX" % (uid % 1000), "T%dX" % (uid % 1000)
     ref_atoms = split_residues(rs, n_ref, nres_r, rname)
     tgt_atoms = split_residues(rs, n_tgt, nres_t, tname)
+    geom = str(rs.choice(["generic", "rod", "collinear_anchor", "collinear_in_argument_only"], p=[0.55, 0.15, 0.15, 0.15]))
     ref_pos = walk_positions(rs, n_ref, bonds)
+    if geom == "rod":
+        ref_pos = rod_positions(rs, n_ref)
+    elif geom == "collinear_anchor":
+        ref_pos = collinearize(rs, ref_pos, bonds)
     tbonds = chain(n_tgt) if rs.randint(2) else [list(b) for b in molgen.random_tree(rs, n_tgt)]
     tgt_pos = ref_pos[rs.randint(n_ref, size=n_tgt)] + rs.normal(scale=0.15, size=(n_tgt, 3))
     spec = {
-        "uid": uid, "graph_kind": gkind,
+        "uid": uid, "graph_kind": gkind, "geometry": geom,
         "ref": {"name": rname, "atoms": ref_atoms, "bonds": bonds, "pos": lst(ref_pos),
                 "resid_offset": int(rs.randint(0, 50))},
         "tgt": {"name": tname, "atoms": tgt_atoms, "bonds": [list(map(int, b)) for b in tbonds], "pos": lst(tgt_pos),
@@ -140,15 +199,23 @@ def gen_static(rs, uid, k_only=False):
         spec["tgt"] = {"pos": lst(ref_pos + rs.normal(scale=0.1, size=ref_pos.shape)), "vel": None}
     objs = []
     for _ in range(int(rs.randint(2, 6))):
-        how = rs.choice(["rigid", "deform", "new", "same"], p=[0.4, 0.3, 0.2, 0.1])
+        how = rs.choice(["rigid", "deform", "new", "same", "translate", "axisrot"], p=[0.3, 0.2, 0.15, 0.1, 0.15, 0.1])
         if how == "rigid":
             p = (ref_pos - ref_pos.mean(0)) @ rotmat(rs).T + rs.uniform(-50, 50, size=3)
         elif how == "deform":
             p = ref_pos + rs.normal(scale=rs.uniform(0.05, 0.3), size=ref_pos.shape)
         elif how == "new":
             p = walk_positions(rs, n_ref, bonds)
+        elif how == "translate":
+            p = ref_pos + rs.randint(-80, 81, size=3) / 4.0          # dyadic: exact on the dyadic grid
+        elif how == "axisrot":
+            p = ref_pos @ axis_rotation(rs).T + rs.randint(-80, 81, size=3) / 4.0
         else:
             p = ref_pos.copy()
+        if geom == "collinear_in_argument_only" and rs.randint(3):
+            p = rod_positions(rs, n_ref) if rs.randint(2) else collinearize(rs, p, bonds)
+        elif geom != "generic" and how in ("deform", "new") and rs.randint(2):
+            p = collinearize(rs, p, bonds)
         objs.append({"kind": str(rs.choice(["copy", "deep"])), "pos": lst(p),
                      "gro_resids": [int(x) for x in rs.randint(1, 9000, size=nres_r)] if rs.randint(4) else None})
     if rs.randint(3) == 0:
@@ -169,6 +236,21 @@ def gen_static(rs, uid, k_only=False):
     return spec
 
 
+def collinear_anchors(mol):
+    """number of anchors of the molecule that are collinear (1e-6 relative, the threshold of calcule_base) with their two
+    lowest-index bonded neighbours - computed here independently, for the evidence only"""
+    pos = np.array(mol.atoms_positions, dtype=float)
+    k = 0
+    for i, a in enumerate(mol):
+        b = sorted(a.bonds)
+        if len(b) >= 2:
+            u, v = pos[b[1]] - pos[i], pos[b[0]] - pos[i]
+            nu = np.linalg.norm(u)
+            if nu > 0 and np.linalg.norm(np.cross(u / nu, v)) <= 1e-6 * np.linalg.norm(v):
+                k += 1
+    return k
+
+
 VALID = ("copy", "deep", "ref")
 NONMOL = ["none", "int", "str", "array", "residue", "moltop", "atomlist"]
 
@@ -177,7 +259,7 @@ NONMOL = ["none", "int", "str", "array", "residue", "moltop", "atomlist"]
 class Session:
     """realises a spec on the implementation and applies operations to it"""
 
-    def __init__(self, spec):
+    def __init__(self, spec, before_build=None):
         from gaddlemaps import ExchangeMap
         self.spec = spec
         r, t = spec["ref"], spec["tgt"]
@@ -196,11 +278,15 @@ class Session:
             self.objs.append(self._make_obj(o))
             self.kinds.append(o["kind"])
         self.n_static = len(self.objs)
+        self.collinear_calls = 0           # calls on an argument with a collinear anchor (aligned branch of calcule_base)
+        self.collinear_at_build = collinear_anchors(self.ref)
         # snapshots taken at construction time (for the fresh-map oracle)
         self.ref0 = self.ref.deep_copy()
         self.tgt0 = self.tgt.deep_copy()
         self.build_exc = None
         self.map = None
+        if before_build is not None:
+            before_build(self)            # observation point: every molecule exists, the map does not yet
         with np.errstate(all="ignore"):
             try:
                 self.map = ExchangeMap(self.ref, self.tgt, spec["scale"])
@@ -268,6 +354,8 @@ class Session:
         try:
             with np.errstate(all="ignore"):
                 if k == "call":
+                    if self.kinds[op["h"]] in VALID and collinear_anchors(self.objs[op["h"]]):
+                        self.collinear_calls += 1
                     res = self.map(self.objs[op["h"]])
                     self.objs.append(res)
                     self.kinds.append("result")
@@ -443,16 +531,21 @@ def op_term(op):
 def run_K_case(spec, rs, n_ops):
     """Runs (and, when spec['ops'] is empty, generates) the sequence on the implementation, observing the heap.
     Returns (coq term, stats)."""
-    ses = Session(spec)
     ho = HeapObserver()
-    refrec = ho.mol_record(ses.ref)
-    tgtrec = ho.mol_record(ses.tgt)
-    objrecs = [ho.mol_record(m) for m in ses.objs]
-    heap0 = ho.heap_term()
+    pre = {}
+
+    def before_build(ses_):
+        pre["ref"] = ho.mol_record(ses_.ref)
+        pre["tgt"] = ho.mol_record(ses_.tgt)
+        pre["objs"] = [ho.mol_record(m) for m in ses_.objs]
+        pre["heap"] = ho.heap_term()
+    ses = Session(spec, before_build)
+    refrec, tgtrec, objrecs, heap0 = pre["ref"], pre["tgt"], pre["objs"], pre["heap"]
+    bg, bt = ho.delta_terms()            # what the construction of the map did to the heap (nothing, in the model)
     n_tgt = len(ses.tgt)
     stats = {"calls_ok": 0, "rejected": 0, "valueerror": 0, "pokes": 0, "between": False, "nonfinite": False}
     if ses.build_exc is not None:
-        term = "chk_c04 %s %s %s (%s) (%s) (Some %s) [] [] [] []" % (
+        term = "chk_c04 %s %s %s (%s) (%s) (Some %s) [] [] [] [] [] []" % (
             fl(spec["scale"]), heap0, lib.coq_list(["(%s)" % r for r in objrecs]), refrec, tgtrec,
             exc_code(ses.build_exc))
         return term, stats
@@ -503,8 +596,8 @@ def run_K_case(spec, rs, n_ops):
             break
     if generate:
         spec["ops"] = ops
-    term = "chk_c04 %s %s %s (%s) (%s) None %s %s %s %s" % (
-        fl(spec["scale"]), heap0, lib.coq_list(["(%s)" % r for r in objrecs]), refrec, tgtrec,
+    term = "chk_c04 %s %s %s (%s) (%s) None %s %s %s %s %s %s" % (
+        fl(spec["scale"]), heap0, lib.coq_list(["(%s)" % r for r in objrecs]), refrec, tgtrec, bg, bt,
         natlist(keys0), natlist(eq0), lib.coq_list(["(%s)" % op_term(o) for o in ops], sep=";\n      "),
         lib.coq_list(obs, sep=";\n      "))
     return term, stats
@@ -523,11 +616,15 @@ def oracle_sequence(spec, gen=None):
     violated clauses (empty = the property holds on this sequence), plus statistics."""
     from gaddlemaps import ExchangeMap
     from gaddlemaps.components import Molecule
-    ses = Session(spec)
+    pre = []
+    ses = Session(spec, lambda ses_: pre.extend((lab, m, coords(m)) for lab, m in ses_.live()))
     bad = []
     stats = {"calls_ok": 0, "rejected": 0, "skipped": 0, "pokes": 0, "between": False}
     if ses.build_exc is not None:
         return ["construction raised %r" % ses.build_exc], stats
+    for lab, m, c0 in pre:
+        if c0.tobytes() != coords(m).tobytes():
+            bad.append("building the map changed the coordinates of %s" % lab)
     tgt_names = [a.name for a in ses.tgt0]
     tgt_resnames = [a.resname for a in ses.tgt0]
     n_res_tgt = len(ses.tgt0.resids)
@@ -644,7 +741,32 @@ def corpus_specs():
                         {"op": "call", "h": 4}, {"op": "call", "h": 1}, {"op": "pokeobj", "h": 1, "i": 2, "v": [4.0, 4.0, 4.0]},
                         {"op": "call", "h": 1}, {"op": "call", "h": 0}]}
         out.append(spec)
+    out.append(rod_witness())
     return out
+
+
+def rod_witness():
+    """a 5-bead reference whose last three beads are exactly on a line (parallel to x), mapped to a 7-atom target;
+    four rigidly moved arguments, each mapped twice, interleaved (seeded/C04-6: an in-place `pos1 += ...` in the aligned
+    branch of calcule_base moved one atom of the argument by 1 nm per call and the reference at construction)"""
+    cg = np.array([[0.100, 0.450, 0.120], [0.250, 0.300, 0.050], [0.400, 0.200, 0.300], [0.550, 0.200, 0.300],
+                   [0.700, 0.200, 0.300]])
+    aa = np.array([[0.110, 0.440, 0.130], [0.240, 0.310, 0.060], [0.410, 0.190, 0.290], [0.540, 0.210, 0.310],
+                   [0.710, 0.205, 0.295], [0.050, 0.500, 0.100], [0.760, 0.150, 0.330]])
+
+    def moved(k):
+        ang = 0.41 * k
+        rot = np.array([[np.cos(ang), -np.sin(ang), 0.], [np.sin(ang), np.cos(ang), 0.], [0., 0., 1.]])
+        return cg.dot(rot.T) + np.array([0.7 * k, -0.3 * k, 0.2 * k])
+    return {"uid": 950, "graph_kind": "corpus", "geometry": "collinear_anchor",
+            "ref": {"name": "RODCG", "atoms": [["B%d" % (k + 1), "ROD", 1] for k in range(5)], "bonds": chain(5),
+                    "pos": lst(cg), "resid_offset": 0},
+            "tgt": {"name": "RODAA", "atoms": [[n, "ROD", 1] for n in ["C1", "C2", "C3", "C4", "C5", "H1", "H2"]],
+                    "bonds": [[0, 1], [1, 2], [2, 3], [3, 4], [0, 5], [4, 6]], "pos": lst(aa), "resid_offset": 0,
+                    "vel": None},
+            "scale": 0.5, "shared_top": False,
+            "objs": [{"kind": "copy", "pos": lst(moved(k)), "gro_resids": [10 + k]} for k in range(4)],
+            "ops": [{"op": "call", "h": k} for k in [0, 1, 0, 2, 3, 2, 1, 3]]}
 
 
 def nontrivial(stats):
@@ -687,6 +809,7 @@ def correspondence(ctx):
         for key in tot:
             tot[key] += stats[key]
         hist_add(hist, "graph_" + spec["graph_kind"])
+        hist_add(hist, "geometry_" + spec.get("geometry", "generic"))
         hist_add(hist, "n_ref_%d" % len(spec["ref"]["atoms"]))
         hist_add(hist, "ops_%s" % ("<=10" if len(spec["ops"]) <= 10 else "<=30" if len(spec["ops"]) <= 30 else ">30"))
         hist_add(hist, "multi_residue" if len(set(a[2] for a in spec["ref"]["atoms"])) > 1 else "single_residue")
@@ -738,6 +861,7 @@ def oracle(ctx, scale):
         for key in tot:
             tot[key] += stats[key]
         hist_add(hist, "n_ref_%d" % len(spec["ref"]["atoms"]))
+        hist_add(hist, "geometry_" + spec.get("geometry", "generic"))
         hist_add(hist, "n_tgt_%s" % ("1" if len(spec["tgt"]["atoms"]) == 1 else "2-5" if len(spec["tgt"]["atoms"]) <= 5 else "6-20"))
         ctx.count(("S", scale, k, json.dumps(spec["ops"])[:400]), nontrivial(stats))
         if k == 1:
